@@ -43,6 +43,21 @@ CHECKS = {
  "C14": dict(design="6/C14", technique="Coq proof (to_graph naturality, stack/get/pad laws, padding invisible to to_networkx_graph, filter specs incl. pinned refutations) + translator tie (pad widths, indexing, filter lookup key, networkx skip conditions) + exact model/implementation comparison on random ragged records",
    text="Conversion, stacking, padding, indexing, filtering and networkx conversion are specified and proved over polymorphic leaf types; every API is compared exactly on generated ragged multi-episode records with shadow-named connections.",
    note="networkx upsert semantics trusted; records built from rex dataclasses directly."),
+ "C10": dict(design="6/C10", technique="Coq proof (zoh_eq_static under ordered arrivals and at most ext in-flight messages, exact window size, alpha_saturates; refutation witnesses for skip ties and too-small extensions) + translator tie of the TrainableDist kernels + apply_delay vs the Gallina zoh evaluated in Coq + end-to-end compiled runs (trainable at d vs edge regenerated at Deterministic(d))",
+   text="The zero-order hold on the extended window is proved equal to the static-delay window under two explicit hypotheses; both are refuted on the code as it is outside them (known findings F5, F7); the code is tied by regenerated kernels, exact unit-level comparison and end-to-end runs.",
+   note="Known findings: trainable-skip-tie (F5), window-extension-too-small (F7). Lattice delays."),
+ "C15": dict(design="6/C15", technique="Coq proof (sample_nonneg, key chain, replay, exact quantiles for deterministic/normal over an abstract strictly increasing Phi/Phinv pair, grid quantile bracket + monotonicity, default delay, GMM proper-mixture laws) + translator tie (sample/reset/quantile, grid bounds, index pick, TrainableDist, node defaults, GMM rescale/prune) + exact grid-quantile correspondence evaluated in Coq + implementation runs",
+   text="All clauses are theorems over the model with PRNG and the standard normal pair as Section variables; kernels regenerated and tied each run; the grid quantile routine is compared exactly on integer CDF ranks; sampling purity/replay and float accuracy are decided by implementation runs.",
+   note="PRNG (jax.random), distrax CDFs, the Adam fit of GMMEstimator are outside the model (contracts / tested). Real-number axioms."),
+ "C16": dict(design="6/C16", technique="Coq proof (phase = longest non-skipped path, loop iff unskipped cycle, set_delay takes effect incl. drawn delays, info round trip; refutations of the historic defect variants) + translator tie of node.py kernels with a computed source variant + model/implementation correspondence on generated node/operation sequences + simulated episodes after set_delay",
+   text="Phase, loop detection, set_delay and the info round trip are proved on the configuration model; the source variant is recomputed from regenerated kernels each run; rex is compared with the model on generated topologies and op sequences, and simulated episodes confirm the new delays are drawn.",
+   note="Lattice times; Python's recursion limit on very long acyclic chains is outside the model."),
+ "C18": dict(design="6/C18", technique="Coq proof (samples in bounds, best loss non-increasing = least finite loss, best candidate attained, NaN ranks last / never best, stable argsort, evo laws under an explicit ask/tell contract, sound history checker) + translator tie of cem.py/evo.py kernels + exact comparison of cem_update_mean_stdev / gaussian_samples on dyadic inputs + end-to-end histories judged by the checker evaluated in Coq",
+   text="All clauses are theorems for every loss function, noise stream, bounds, population, elite count and iteration count; evosax enters through a contract validated on every run; kernels regenerated and tied; public kernels compared exactly; full cem/evo histories checked.",
+   note="Known finding: value-based evosax strategies sample NaN candidates after a NaN loss. The literal 'NaN never elite while any finite exists' reading is refuted for fixed elite counts (DESIGN reading used)."),
+ "C20": dict(design="6/C20", technique="Coq proof (policy mean = actor mean for every depth/width/weights/activation name incl. failure cases, permutation invariance of the params dict, same Gaussian, get_action = the action training hands the environment, range laws) + translator tie (unsquash, normalise, activation tables, loops, flags) + synthetic and real PPOResults compared with the flax actor and an exact Q model",
+   text="Two independent transliterations (exported Policy vs flax Actor) are proved equal for all parameters; kernels regenerated and tied; exported policies from synthetic and real training results are compared with the actor network, exactly over Q for dyadic relu nets.",
+   note="flax Dense / activations / distrax / jax.random are shared code on both sides (trusted); state-dependent std is outside the property (training itself fails there)."),
 }
 NOT_YET = "check not built yet in this session (design in DESIGN.md section 6); not claimed until its check exists"
 man = dict(version=1,
